@@ -11,6 +11,8 @@ extern "C" {
 #include "spqlios/cplx/cplx_fft.h"
 #include "spqlios/reim/reim_fft.h"
 #include "spqlios/reim4/reim4_fftvec_public.h"
+#include "spqlios/q120/q120_arithmetic.h"
+#include "spqlios/q120/q120_ntt.h"
 }
 
 static uint64_t fnv(uint64_t h, const void* p, size_t n) {
@@ -27,10 +29,59 @@ struct Shared {
   CPLX_FFT_PRECOMP* cfft;
   SVP_PPOL* ppol;
   VMP_PMAT* pmat;
+  // more shared tables (every table-based kernel family)
+  REIM_FFTVEC_MUL_PRECOMP* rmul = nullptr;
+  REIM_FFTVEC_ADDMUL_PRECOMP* raddmul = nullptr;
+  CPLX_FFTVEC_MUL_PRECOMP* cmul = nullptr;
+  CPLX_FFTVEC_ADDMUL_PRECOMP* caddmul = nullptr;
+  REIM4_FFTVEC_MUL_PRECOMP* r4mul = nullptr;
+  REIM4_FFTVEC_ADDMUL_PRECOMP* r4addmul = nullptr;
+  REIM_FROM_ZNX64_PRECOMP* rfrom = nullptr;
+  REIM_TO_ZNX64_PRECOMP* rto = nullptr;
+  REIM_TO_TNX_PRECOMP* rtnx = nullptr;
+  CPLX_FROM_ZNX32_PRECOMP* cfrom = nullptr;
+  CPLX_TO_TNX32_PRECOMP* cto = nullptr;
+  CPLX_IFFT_PRECOMP* cifft = nullptr;
+  q120_mat1col_product_baa_precomp* qbaa = nullptr;
+  q120_mat1col_product_bbb_precomp* qbbb = nullptr;
+  q120_mat1col_product_bbc_precomp* qbbc = nullptr;
+  q120_ntt_precomp* qntt = nullptr;
+  q120_ntt_precomp* qintt = nullptr;
   uint64_t nn;
   int iters;
   int simple;  // also exercise the *_simple API (after warm-up)
 };
+
+static void make_more(Shared& S) {
+  const uint32_t m = (uint32_t)(S.nn / 2);
+  S.rmul = new_reim_fftvec_mul_precomp(m);
+  S.raddmul = new_reim_fftvec_addmul_precomp(m);
+  S.cmul = new_cplx_fftvec_mul_precomp(m);
+  S.caddmul = new_cplx_fftvec_addmul_precomp(m);
+  S.r4mul = new_reim4_fftvec_mul_precomp(m);
+  S.r4addmul = new_reim4_fftvec_addmul_precomp(m);
+  S.rfrom = new_reim_from_znx64_precomp(m, 50);
+  S.rto = new_reim_to_znx64_precomp(m, (double)m, 63);
+  S.rtnx = new_reim_to_tnx_precomp(m, 4.0, 18);
+  S.cfrom = new_cplx_from_znx32_precomp(m);
+  S.cto = new_cplx_to_tnx32_precomp(m, 2.0, 18);
+  S.cifft = new_cplx_ifft_precomp(m, 0);
+  S.qbaa = q120_new_vec_mat1col_product_baa_precomp();
+  S.qbbb = q120_new_vec_mat1col_product_bbb_precomp();
+  S.qbbc = q120_new_vec_mat1col_product_bbc_precomp();
+  S.qntt = q120_new_ntt_bb_precomp(S.nn);
+  S.qintt = q120_new_intt_bb_precomp(S.nn);
+}
+static void free_more(Shared& S) {
+  if (!S.rmul) return;
+  free(S.rmul); free(S.raddmul); free(S.cmul); free(S.caddmul); free(S.r4mul); free(S.r4addmul);
+  free(S.rfrom); free(S.rto); free(S.rtnx); free(S.cfrom); free(S.cto); free(S.cifft);
+  q120_delete_vec_mat1col_product_baa_precomp(S.qbaa);
+  q120_delete_vec_mat1col_product_bbb_precomp(S.qbbb);
+  q120_delete_vec_mat1col_product_bbc_precomp(S.qbbc);
+  q120_del_ntt_bb_precomp(S.qntt);
+  q120_del_intt_bb_precomp(S.qintt);
+}
 
 // the work of one thread; deterministic in (seed); returns a hash of everything it computed
 static uint64_t work(const Shared& S, uint64_t seed) {
@@ -77,6 +128,81 @@ static uint64_t work(const Shared& S, uint64_t seed) {
     reim_ifft(S.rifft, d.data());
     cplx_fft(S.cfft, d.data());
     h = fnv(h, d.data(), nn * 8);
+    if (S.rmul) {
+      // the remaining module-level entry points and every table-based kernel family on SHARED tables
+      std::vector<int64_t> c2(3 * nn);
+      vec_znx_sub(S.fft, c.data(), 3, nn, a.data(), 2, nn, b.data(), 3, nn);
+      vec_znx_negate(S.fft, c2.data(), 3, nn, c.data(), 2, nn);
+      vec_znx_copy(S.fft, c.data(), 2, nn, c2.data(), 3, nn);
+      vec_znx_zero(S.fft, c2.data(), 1, nn);
+      h = fnv(h, c.data(), c.size() * 8);
+      h = fnv(h, c2.data(), c2.size() * 8);
+      h = fnv(h, &nn, 0) + module_get_n(S.fft) + vec_znx_normalize_base2k_tmp_bytes(S.fft) + znx_small_single_product_tmp_bytes(S.fft) +
+          vmp_apply_dft_tmp_bytes(S.fft, 3, 2, 2, 3) + bytes_of_vec_znx_dft(S.fft, 3) + bytes_of_vmp_pmat(S.fft, 2, 3);
+      VEC_ZNX_BIG* A = (VEC_ZNX_BIG*)a.data();
+      VEC_ZNX_BIG* B = (VEC_ZNX_BIG*)b.data();
+      VEC_ZNX_BIG* C = (VEC_ZNX_BIG*)c.data();
+      vec_znx_big_add(S.fft, C, 3, A, 3, B, 2);                           h = fnv(h, c.data(), c.size() * 8);
+      vec_znx_big_sub(S.fft, C, 3, A, 2, B, 3);                           h = fnv(h, c.data(), c.size() * 8);
+      vec_znx_big_add_small2(S.fft, C, 3, a.data(), 3, nn, b.data(), 3, nn);   h = fnv(h, c.data(), c.size() * 8);
+      vec_znx_big_sub_small_a(S.fft, C, 3, a.data(), 3, nn, B, 3);        h = fnv(h, c.data(), c.size() * 8);
+      vec_znx_big_sub_small_b(S.fft, C, 3, A, 3, b.data(), 3, nn);        h = fnv(h, c.data(), c.size() * 8);
+      vec_znx_big_sub_small2(S.fft, C, 3, a.data(), 3, nn, b.data(), 3, nn);   h = fnv(h, c.data(), c.size() * 8);
+      vec_znx_big_rotate(S.fft, (int64_t)r.sbits(12), C, 3, A, 3);        h = fnv(h, c.data(), c.size() * 8);
+      vec_znx_big_automorphism(S.fft, (int64_t)(r.sbits(12) | 1), C, 3, A, 3);  h = fnv(h, c.data(), c.size() * 8);
+      vec_znx_big_normalize_base2k(S.fft, 1 + r.below(30), c2.data(), 3, nn, A, 3, tmp.data());   h = fnv(h, c2.data(), c2.size() * 8);
+      vec_znx_big_range_normalize_base2k(S.fft, 1 + r.below(30), c2.data(), 2, nn, A, 0, 3, 2, tmp.data());   h = fnv(h, c2.data(), c2.size() * 8);
+      // own prepared objects through the shared module, then the DFT-to-DFT product on the shared matrix
+      {
+        std::vector<double> pp(nn), pm(6 * nn), dd(3 * nn), ee(3 * nn);
+        svp_prepare(S.fft, (SVP_PPOL*)pp.data(), a.data());                 h = fnv(h, pp.data(), pp.size() * 8);
+        vmp_prepare_contiguous(S.fft, (VMP_PMAT*)pm.data(), c.data(), 1, 2, tmp.data());   h = fnv(h, pm.data(), 2 * nn * 8);
+        vec_znx_dft(S.fft, (VEC_ZNX_DFT*)dd.data(), 2, a.data(), 2, nn);
+        vmp_apply_dft_to_dft(S.fft, (VEC_ZNX_DFT*)ee.data(), 3, (VEC_ZNX_DFT*)dd.data(), 2, S.pmat, 2, 3, tmp.data());
+        h = fnv(h, ee.data(), ee.size() * 8);
+      }
+      // fftvec products and conversions on shared tables
+      {
+        std::vector<double> x(2 * nn), y(2 * nn), z(2 * nn, 1.5);
+        for (uint64_t i = 0; i < nn; i++) { x[i] = (double)r.sbits(20) / 64.0; y[i] = (double)r.sbits(20) / 32.0; }
+        reim_fftvec_mul(S.rmul, z.data(), x.data(), y.data());            h = fnv(h, z.data(), nn * 8);
+        reim_fftvec_addmul(S.raddmul, z.data(), x.data(), y.data());      h = fnv(h, z.data(), nn * 8);
+        cplx_fftvec_mul(S.cmul, z.data(), x.data(), y.data());            h = fnv(h, z.data(), nn * 8);
+        cplx_fftvec_addmul(S.caddmul, z.data(), x.data(), y.data());      h = fnv(h, z.data(), nn * 8);
+        if (m >= 4) {
+          reim4_fftvec_mul(S.r4mul, z.data(), x.data(), y.data());        h = fnv(h, z.data(), nn * 8);
+          reim4_fftvec_addmul(S.r4addmul, z.data(), x.data(), y.data());  h = fnv(h, z.data(), nn * 8);
+        }
+        cplx_ifft(S.cifft, x.data());                                     h = fnv(h, x.data(), nn * 8);
+        reim_from_znx64(S.rfrom, z.data(), a.data());                     h = fnv(h, z.data(), nn * 8);
+        reim_to_znx64(S.rto, c2.data(), z.data());                        h = fnv(h, c2.data(), nn * 8);
+        reim_to_tnx(S.rtnx, z.data(), y.data());                          h = fnv(h, z.data(), nn * 8);
+        std::vector<int32_t> i32(nn);
+        for (auto& v : i32) v = (int32_t)r.next();
+        cplx_from_znx32(S.cfrom, z.data(), i32.data());                   h = fnv(h, z.data(), nn * 8);
+        for (uint64_t i = 0; i < nn; i++) y[i] = (double)r.sbits(16) / 8.0;
+        cplx_to_tnx32(S.cto, i32.data(), y.data());                       h = fnv(h, i32.data(), nn * 4);
+      }
+      // q120: products and NTT on shared precomputations
+      {
+        const uint64_t ell = 5;
+        std::vector<uint64_t> xa(4 * ell), ya(4 * ell), xb(4 * ell), yc(8 * ell), res(8);
+        for (auto& v : xa) v = r.next() & 0xFFFFFFFFull;
+        for (auto& v : ya) v = r.next() & 0xFFFFFFFFull;
+        for (auto& v : xb) v = r.next();
+        for (auto& v : yc) v = r.next() & 0xFFFFFFFFull;
+        q120_vec_mat1col_product_baa_ref(S.qbaa, ell, (q120b*)res.data(), (q120a*)xa.data(), (q120a*)ya.data());   h = fnv(h, res.data(), 32);
+        q120_vec_mat1col_product_baa_avx2(S.qbaa, ell, (q120b*)res.data(), (q120a*)xa.data(), (q120a*)ya.data());  h = fnv(h, res.data(), 32);
+        q120_vec_mat1col_product_bbb_ref(S.qbbb, ell, (q120b*)res.data(), (q120b*)xb.data(), (q120b*)xb.data());   h = fnv(h, res.data(), 32);
+        q120_vec_mat1col_product_bbb_avx2(S.qbbb, ell, (q120b*)res.data(), (q120b*)xb.data(), (q120b*)xb.data());  h = fnv(h, res.data(), 32);
+        q120_vec_mat1col_product_bbc_ref(S.qbbc, ell, (q120b*)res.data(), (q120b*)xb.data(), (q120c*)yc.data());   h = fnv(h, res.data(), 32);
+        q120_vec_mat1col_product_bbc_avx2(S.qbbc, ell, (q120b*)res.data(), (q120b*)xb.data(), (q120c*)yc.data());  h = fnv(h, res.data(), 32);
+        std::vector<uint64_t> v(4 * nn);
+        for (auto& t : v) t = r.next();
+        q120_ntt_bb_avx2(S.qntt, (q120b*)v.data());                       h = fnv(h, v.data(), v.size() * 8);
+        q120_intt_bb_avx2(S.qintt, (q120b*)v.data());                     h = fnv(h, v.data(), v.size() * 8);
+      }
+    }
     if (S.simple) {
       for (uint64_t i = 0; i < nn; i++) d[i] = (double)r.sbits(30);
       reim_fft_simple(m, d.data());
@@ -121,6 +247,7 @@ static void mt_case(Out& out, Rng& rng, uint64_t nn, int nthreads, int iters, in
   S.cfft = new_cplx_fft_precomp(nn / 2, 0);
   S.ppol = new_svp_ppol(S.fft);
   S.pmat = new_vmp_pmat(S.fft, 2, 3);
+  if (mask == 0 && nn >= 8) make_more(S);
   std::vector<int64_t> pol(nn), mat(6 * nn);
   for (auto& x : pol) x = rng.sbits(10);
   for (auto& x : mat) x = rng.sbits(10);
@@ -169,6 +296,7 @@ static void mt_case(Out& out, Rng& rng, uint64_t nn, int nthreads, int iters, in
   free(S.rfft); free(S.rifft); free(S.cfft);
   delete_svp_ppol(S.ppol);
   delete_vmp_pmat(S.pmat);
+  free_more(S);
   spqlios_verif_set_cpu_mask(0, 0, 0);
 }
 
